@@ -375,6 +375,13 @@ func (r *RootApp) Run() error {
 			fileLog.Err(err).Msg("can't determine if outfile exists")
 			return fmt.Errorf("determining if outfile exists: %w", err)
 		}
+		if !outFileExists {
+			// A symbolic link whose target is missing occupies the path too:
+			// writing would follow it and create a file somewhere else.
+			if _, lerr := os.Lstat(outFile.String()); lerr == nil {
+				outFileExists = true
+			}
+		}
 		if outFileExists && !*fileConfig.ForceFileWrite {
 			fileLog.Error().Bool("force-file-write", *fileConfig.ForceFileWrite).Msg("output file exists, can't write mocks")
 			return fmt.Errorf("outfile exists")
